@@ -157,3 +157,290 @@ Proof.
     + destruct (orelse_inv _ _ _ H) as [[H1 _]|[_ H1]]; [apply (Same _ c H1); auto|].
       destruct (below count mx && moved last (pos st)); [|discriminate]. apply (Same _ c H1); auto.
 Qed.
+
+(* ---- one attempt, the leftmost scan ---------------------------------------------------------- *)
+Lemma caps_in_repeat lo hi n : caps_in lo hi (repeat None n).
+Proof. induction n; cbn; constructor; [exact I|assumption]. Qed.
+
+Lemma attempt_spec fuel fl p ma st e c : attempt fuel fl p ma st = Some (Some (e, c)) ->
+  pos st <= e /\ e <= pos st + length (rest st) /\ caps_in (pos st) e c /\ length c = p_groups p /\
+  (ma = true -> e <> pos st).
+Proof.
+  unfold attempt. intro H.
+  destruct (run_bounds fl ma (pos st) (pos st) fuel _ st _ e c H (le_n _) (caps_in_repeat _ _ _)
+              ltac:(constructor; [exact I|constructor])) as (A & B & C & D & E).
+  rewrite repeat_length in D. auto.
+Qed.
+
+Lemma attempt_mono f f' fl p ma st x : f <= f' ->
+  attempt f fl p ma st = Some x -> attempt f' fl p ma st = Some x.
+Proof. unfold attempt. apply run_mono_le. Qed.
+
+Lemma scan_eq fuel fl p ma ps pv rs :
+  scan fuel fl p ma ps pv rs =
+  match attempt fuel fl p ma {| pos := ps; prev := pv; rest := rs |} with
+  | None => None
+  | Some (Some (e, c)) => Some (Some (ps, e, c))
+  | Some None => match rs with [] => Some None | x :: r => scan fuel fl p false (S ps) (Some x) r end
+  end.
+Proof. destruct rs; reflexivity. Qed.
+
+Lemma scan_spec fuel fl p : forall rs ma ps pv b e c,
+  scan fuel fl p ma ps pv rs = Some (Some (b, e, c)) ->
+  ps <= b /\ b <= e /\ e <= ps + length rs /\ caps_in b e c /\ length c = p_groups p /\
+  (ma = true -> b = ps -> e <> ps).
+Proof.
+  induction rs as [|x r IH]; intros ma ps pv b e c H; rewrite scan_eq in H;
+    destruct (attempt fuel fl p ma _) as [[[e0 c0]|]|] eqn:Ea; try discriminate.
+  - injection H as <- <- <-. destruct (attempt_spec _ _ _ _ _ _ _ Ea) as (A & B & C & D & E). cbn in *.
+    repeat split; auto; lia.
+  - injection H as <- <- <-. destruct (attempt_spec _ _ _ _ _ _ _ Ea) as (A & B & C & D & E). cbn in *.
+    repeat split; auto; lia.
+  - destruct (IH _ _ _ _ _ _ H) as (A & B & C & D & E & F). cbn [length].
+    repeat split; auto; try lia.
+Qed.
+
+Lemma scan_mono f f' fl p : f <= f' -> forall rs ma ps pv x,
+  scan f fl p ma ps pv rs = Some x -> scan f' fl p ma ps pv rs = Some x.
+Proof.
+  intro Hle. induction rs as [|x0 r IH]; intros ma ps pv x H; rewrite scan_eq in H; rewrite scan_eq;
+    destruct (attempt f fl p ma _) as [[[e0 c0]|]|] eqn:Ea; try discriminate;
+    rewrite (attempt_mono f f' _ _ _ _ _ Hle Ea); try exact H.
+  apply IH. exact H.
+Qed.
+
+(* ---- finditer ------------------------------------------------------------------------------------ *)
+Lemma seek_length : forall n pv s, length (snd (seek n pv s)) = length s - n.
+Proof.
+  induction n as [|n IH]; intros pv s; cbn [seek]; [cbn; lia|].
+  destruct s as [|x r]; [reflexivity|]. rewrite IH. reflexivity.
+Qed.
+
+Lemma seek_skipn : forall n pv s, snd (seek n pv s) = skipn n s.
+Proof.
+  induction n as [|n IH]; intros pv s; cbn [seek]; [reflexivity|].
+  destruct s as [|x r]; [reflexivity|]. rewrite IH. reflexivity.
+Qed.
+
+(* the matches found from position [from] on: each inside the subject, its captures inside
+   the match, starts at or after the previous end, and after an empty match the next match at
+   the same position is not empty *)
+Fixpoint ordered (len from : nat) (ma : bool) (ngroups : nat) (l : list (nat * nat * caps)) : Prop :=
+  match l with
+  | [] => True
+  | (b, e, c) :: l' =>
+      from <= b /\ b <= e /\ e <= len /\ caps_in b e c /\ length c = ngroups /\
+      (ma = true -> b = from -> e <> from) /\ ordered len e (Nat.eqb b e) ngroups l'
+  end.
+
+Lemma find_all_go_eq g fuel fl p s from ma :
+  find_all_go (S g) fuel fl p s from ma =
+  match scan fuel fl p ma from (fst (seek from None s)) (snd (seek from None s)) with
+  | None => None
+  | Some None => Some []
+  | Some (Some (b, e, c)) =>
+      match find_all_go g fuel fl p s e (Nat.eqb b e) with
+      | None => None
+      | Some l => Some ((b, e, c) :: l)
+      end
+  end.
+Proof. cbn [find_all_go]. destruct (seek from None s). reflexivity. Qed.
+
+Lemma find_all_go_spec fuel fl p s : forall gas from ma l, from <= length s ->
+  find_all_go gas fuel fl p s from ma = Some l -> ordered (length s) from ma (p_groups p) l.
+Proof.
+  induction gas as [|g IH]; intros from ma l Hf H; [discriminate|].
+  rewrite find_all_go_eq in H.
+  destruct (scan fuel fl p ma from _ _) as [[[[b e] c]|]|] eqn:Es; try discriminate.
+  - destruct (find_all_go g fuel fl p s e (Nat.eqb b e)) as [l'|] eqn:Er; [|discriminate].
+    injection H as <-. destruct (scan_spec _ _ _ _ _ _ _ _ _ _ Es) as (A & B & C & D & E & F).
+    rewrite seek_length in C. cbn [ordered]. repeat split; auto; try lia.
+    apply (IH e _ l'); [lia|exact Er].
+  - injection H as <-. exact I.
+Qed.
+
+Lemma find_all_go_mono f f' fl p s : f <= f' -> forall gas from ma l,
+  find_all_go gas f fl p s from ma = Some l -> find_all_go gas f' fl p s from ma = Some l.
+Proof.
+  intro Hle. induction gas as [|g IH]; intros from ma l H; [discriminate|].
+  rewrite find_all_go_eq in H. rewrite find_all_go_eq.
+  destruct (scan f fl p ma from _ _) as [[[[b e] c]|]|] eqn:Es; try discriminate;
+    rewrite (scan_mono f f' fl p Hle _ _ _ _ _ Es); [|exact H].
+  destruct (find_all_go g f fl p s e (Nat.eqb b e)) as [l'|] eqn:Er; [|discriminate].
+  rewrite (IH _ _ _ Er). exact H.
+Qed.
+
+(* the bound on the number of matches: gas never is the reason for running out *)
+Definition gas_need (len from : nat) (ma : bool) : nat := 2 * (len - from) + (if ma then 1 else 2).
+
+Lemma find_all_go_gas fuel fl p s : forall gas gas' from ma, from <= length s ->
+  gas_need (length s) from ma <= gas -> gas_need (length s) from ma <= gas' ->
+  find_all_go gas fuel fl p s from ma = find_all_go gas' fuel fl p s from ma.
+Proof.
+  induction gas as [|g IH]; intros gas' from ma Hf Hg Hg'.
+  - unfold gas_need in Hg. destruct ma; lia.
+  - destruct gas' as [|g']; [unfold gas_need in Hg'; destruct ma; lia|].
+    rewrite !find_all_go_eq.
+    destruct (scan fuel fl p ma from _ _) as [[[[b e] c]|]|] eqn:Es; try reflexivity.
+    destruct (scan_spec _ _ _ _ _ _ _ _ _ _ Es) as (A & B & C & D & E & F).
+    rewrite seek_length in C.
+    assert (Hn : gas_need (length s) e (Nat.eqb b e) <= g /\ gas_need (length s) e (Nat.eqb b e) <= g').
+    { unfold gas_need in *. destruct (Nat.eqb b e) eqn:Ebe.
+      - apply Nat.eqb_eq in Ebe. subst e. destruct (Nat.eq_dec b from) as [->|Hne].
+        + destruct ma; [exfalso; apply (F eq_refl eq_refl); reflexivity|]. lia.
+        + destruct ma; lia.
+      - apply Nat.eqb_neq in Ebe. destruct ma; lia. }
+    rewrite (IH g' e (Nat.eqb b e)); [reflexivity|lia|tauto|tauto].
+Qed.
+
+Lemma find_all_gas_suffices fuel fl p s gas : 2 * length s + 2 <= gas ->
+  find_all_go gas fuel fl p s 0 false = find_all fuel fl p s.
+Proof.
+  intro H. unfold find_all. apply find_all_go_gas; unfold gas_need; lia.
+Qed.
+
+Lemma find_all_spec fuel fl p s l : find_all fuel fl p s = Some l -> ordered (length s) 0 false (p_groups p) l.
+Proof. unfold find_all. apply find_all_go_spec. lia. Qed.
+
+Lemma find_all_mono f f' fl p s l : f <= f' -> find_all f fl p s = Some l -> find_all f' fl p s = Some l.
+Proof. intro H. unfold find_all. apply find_all_go_mono. exact H. Qed.
+
+(* search is the first finditer match *)
+Lemma find_first_is_head fuel fl p s l : find_all fuel fl p s = Some l ->
+  find_first fuel fl p s = Some (hd_error l).
+Proof.
+  unfold find_all, find_first. replace (2 * length s + 3) with (S (2 * length s + 2)) by lia.
+  rewrite find_all_go_eq. cbn [seek fst snd].
+  destruct (scan fuel fl p false 0 None s) as [[[[b e] c]|]|]; try discriminate.
+  - destruct (find_all_go _ _ _ _ _ _ _); [|discriminate]. intro H. injection H as <-. reflexivity.
+  - intro H. injection H as <-. reflexivity.
+Qed.
+
+(* ---- match records -------------------------------------------------------------------------------- *)
+(* a group record: unset, or the slice [b, e) of the subject with lo <= b <= e <= hi *)
+Definition rec_inside (s : str) (lo hi : nat) (g : grec) : Prop :=
+  g = none_rec \/
+  exists b e, g = (Some (slice_nat s b e), Z.of_nat b, Z.of_nat e) /\ lo <= b /\ b <= e /\ e <= hi.
+
+Definition mrec_ok (p : pattern) (s : str) (m : mrec) : Prop :=
+  exists b e, m_whole m = (Some (slice_nat s b e), Z.of_nat b, Z.of_nat e) /\ b <= e /\ e <= length s /\
+              Forall (rec_inside s b e) (m_groups m) /\ length (m_groups m) = p_groups p /\ m_named m = p_names p.
+
+Lemma slice_nat_length s b e : b <= e -> e <= length s -> length (slice_nat s b e) = e - b.
+Proof. intros H1 H2. unfold slice_nat. rewrite firstn_length, skipn_length. lia. Qed.
+
+Lemma to_mrec_ok p s b e c : b <= e -> e <= length s -> caps_in b e c -> length c = p_groups p ->
+  mrec_ok p s (to_mrec p s (b, e, c)).
+Proof.
+  intros H1 H2 Hc Hl. exists b, e. cbn. repeat split; auto.
+  - clear Hl. induction Hc as [|o c' Ho Hc' IH]; cbn; constructor; auto.
+    destruct o as [[a d]|]; cbn in *; [|left; reflexivity]. right. exists a, d. repeat split; lia.
+  - rewrite map_length. exact Hl.
+Qed.
+
+Fixpoint chain_ok (ps pe : Z) (l : list mrec) : Prop :=
+  match l with
+  | [] => True
+  | m :: r => (pe <= snd (fst (m_whole m)))%Z /\
+              (ps = pe -> snd (fst (m_whole m)) = pe -> (snd (fst (m_whole m)) < snd (m_whole m))%Z) /\
+              chain_ok (snd (fst (m_whole m))) (snd (m_whole m)) r
+  end.
+(* finditer order: every match starts at or after the end of the previous one, and a match
+   that follows an empty match at the same position is not empty *)
+Definition matches_ordered (l : list mrec) : Prop :=
+  match l with [] => True | m :: r => chain_ok (snd (fst (m_whole m))) (snd (m_whole m)) r end.
+
+Lemma ordered_chain p s n : forall l pb pe, ordered (length s) pe (Nat.eqb pb pe) n l ->
+  chain_ok (Z.of_nat pb) (Z.of_nat pe) (map (to_mrec p s) l).
+Proof.
+  induction l as [|[[b e] c] l IH]; intros pb pe H; [exact I|].
+  cbn [ordered] in H. destruct H as (A & B & C & D & E & F & G).
+  cbn [map chain_ok to_mrec m_whole cap_rec fst snd]. split; [lia|]. split.
+  - intros H1 H2. assert (pb = pe) by lia. assert (b = pe) by lia.
+    assert (e <> pe) by (apply F; [apply Nat.eqb_eq; assumption|assumption]). lia.
+  - apply IH. exact G.
+Qed.
+
+Lemma ordered_ok p s n : n = p_groups p -> forall l from ma, ordered (length s) from ma n l ->
+  Forall (mrec_ok p s) (map (to_mrec p s) l).
+Proof.
+  intros -> l. induction l as [|[[b e] c] l IH]; intros from ma H; [constructor|].
+  cbn [ordered] in H. destruct H as (A & B & C & D & E & F & G). cbn [map]. constructor.
+  - apply to_mrec_ok; assumption.
+  - apply (IH _ _ G).
+Qed.
+
+Lemma engine_finditer_spec fuel fl p s ms : engine_finditer fuel fl p s = Some ms ->
+  Forall (mrec_ok p s) ms /\ matches_ordered ms.
+Proof.
+  unfold engine_finditer. destruct (find_all fuel fl p s) as [l|] eqn:E; [|discriminate].
+  intro H. injection H as <-. pose proof (find_all_spec _ _ _ _ _ E) as Ho. split.
+  - apply (ordered_ok p s _ eq_refl l _ _ Ho).
+  - destruct l as [|[[b e] c] l]; [exact I|]. cbn [ordered] in Ho. destruct Ho as (_ & _ & _ & _ & _ & _ & G).
+    cbn [map matches_ordered to_mrec m_whole cap_rec fst snd]. apply (ordered_chain p s _ l b e G).
+Qed.
+
+Lemma engine_search_spec fuel fl p s m : engine_search fuel fl p s = Some (Some m) -> mrec_ok p s m.
+Proof.
+  unfold engine_search, find_first. destruct (scan fuel fl p false 0 None s) as [[[[b e] c]|]|] eqn:E; try discriminate.
+  intro H. injection H as <-. destruct (scan_spec _ _ _ _ _ _ _ _ _ _ E) as (A & B & C & D & F & G).
+  apply to_mrec_ok; auto.
+Qed.
+
+Lemma engine_search_head fuel fl p s ms : engine_finditer fuel fl p s = Some ms ->
+  engine_search fuel fl p s = Some (hd_error ms).
+Proof.
+  unfold engine_finditer, engine_search. destruct (find_all fuel fl p s) as [l|] eqn:E; [|discriminate].
+  intro H. injection H as <-. rewrite (find_first_is_head _ _ _ _ _ E). destruct l as [|[[b e] c] l]; reflexivity.
+Qed.
+
+Lemma engine_finditer_mono f f' fl p s ms : f <= f' ->
+  engine_finditer f fl p s = Some ms -> engine_finditer f' fl p s = Some ms.
+Proof.
+  intro Hle. unfold engine_finditer. destruct (find_all f fl p s) as [l|] eqn:E; [|discriminate].
+  rewrite (find_all_mono _ _ _ _ _ _ Hle E). auto.
+Qed.
+
+Lemma engine_search_mono f f' fl p s x : f <= f' ->
+  engine_search f fl p s = Some x -> engine_search f' fl p s = Some x.
+Proof.
+  intro Hle. unfold engine_search, find_first. destruct (scan f fl p false 0 None s) as [y|] eqn:E; [|discriminate].
+  rewrite (scan_mono _ _ _ _ Hle _ _ _ _ _ E). auto.
+Qed.
+
+(* ---- the yaql functions on the modelled engine ---------------------------------------------------- *)
+Lemma eeval_mono f f' fl p s op r : f <= f' -> eeval f fl p s op = Some r -> eeval f' fl p s op = Some r.
+Proof.
+  intro Hle. unfold eeval. destruct (needs_all op).
+  - destruct (engine_finditer f fl p s) as [ms|] eqn:E; [|discriminate].
+    rewrite (engine_finditer_mono _ _ _ _ _ _ Hle E). auto.
+  - destruct (engine_search f fl p s) as [x|] eqn:E; [|discriminate].
+    rewrite (engine_search_mono _ _ _ _ _ _ Hle E). auto.
+Qed.
+
+Lemma eeval_all fuel fl p s ms : engine_finditer fuel fl p s = Some ms ->
+  (forall sel, eeval fuel fl p s (ESearchAll sel) = Some (reval (RSearchAll ms sel))) /\
+  (forall items cnt, eeval fuel fl p s (EReplaceBy items cnt) = Some (XStr (replace_by s ms items cnt))) /\
+  (forall repl cnt, eeval fuel fl p s (EReplaceLit repl cnt) = Some (XStr (replace_lit s ms repl cnt))) /\
+  (forall cnt, eeval fuel fl p s (ESplit cnt) = Some (XOStrs (regex_split s ms cnt))) /\
+  (forall sel c, eeval fuel fl p s (ESearchAllLazy sel c) = Some (XVals (search_all_lazy ms sel c))) /\
+  eeval fuel fl p s EMatches = Some (XBool (match ms with [] => false | _ => true end)) /\
+  (forall sel, eeval fuel fl p s (ESearch sel) = Some (reval (RSearch (hd_error ms) sel))).
+Proof.
+  intro H. unfold eeval. cbn [needs_all]. rewrite H, (engine_search_head _ _ _ _ _ H).
+  repeat split; try reflexivity. destruct ms; reflexivity.
+Qed.
+
+Lemma eeval_no_match fuel fl p s : engine_finditer fuel fl p s = Some [] ->
+  (forall items cnt, eeval fuel fl p s (EReplaceBy items cnt) = Some (XStr s)) /\
+  (forall repl cnt, eeval fuel fl p s (EReplaceLit repl cnt) = Some (XStr s)) /\
+  (forall cnt, eeval fuel fl p s (ESplit cnt) = Some (XOStrs [Some s])) /\
+  eeval fuel fl p s EMatches = Some (XBool false) /\
+  (forall sel, eeval fuel fl p s (ESearch sel) = Some XNull).
+Proof.
+  intro H. destruct (eeval_all _ _ _ _ _ H) as (_ & A & B & C & _ & D & E).
+  repeat split; intros; rewrite ?A, ?B, ?C, ?D, ?E; try reflexivity.
+  - f_equal. f_equal. unfold replace_by, limit. destruct (Z.eqb cnt 0); rewrite ?firstn_nil; reflexivity.
+  - f_equal. f_equal. unfold replace_lit, limit. destruct (Z.eqb cnt 0); rewrite ?firstn_nil; reflexivity.
+  - f_equal. f_equal. unfold regex_split, limit. destruct (Z.eqb cnt 0); rewrite ?firstn_nil; reflexivity.
+Qed.
